@@ -49,7 +49,9 @@ Inductive sop :=
 | SEnd (m : Z)     (* context m ends (it need not be a member) *)
 | SAdd (m : Z)     (* pool.Add(context m) *)
 | SCancel          (* pool.Cancel() *)
-| SSize.           (* pool.Size() *)
+| SSize.           (* pool.Size() - a look.  The harness also prints as SSize what the caller
+                      does with its OWN data and the pool must not notice: overwriting the slice
+                      it spread into NewPool(s...), building a second pool from that slice. *)
 
 Record ref := mkref {
   r_ended : list Z;
